@@ -1,0 +1,211 @@
+//! transport parameters: `TransportParameters::{write, read}`
+//!
+//! Requests (first token `tparams` already removed):
+//!   write <order> <grease> <20 fields>  -> ok <hex> | panic
+//!   read <client|server> <hex>          -> ok <20 fields> | err malformed | err illegal
+//! <order>  = `-` (write_order = None) | 21 comma separated u8 (write_order = Some([..]))
+//! <grease> = `-` | <id>:<payload hex>  (the reserved parameter, payload at most 16 bytes)
+//! fields   = the 11 integer parameters in `apply_params!` order, then
+//!            disable_active_migration(0|1) max_datagram_frame_size(none|n) initial_src_cid(none|hex)
+//!            grease_quic_bit(0|1) min_ack_delay(none|n) original_dst_cid(none|hex) retry_src_cid(none|hex)
+//!            stateless_reset_token(none|hex16) preferred_address(none|<v4>,<v6>,<cid hex>,<token hex16>)
+//!            with <v4> = none | <ip hex4>/<port>, <v6> = none | <ip hex16>/<port>
+use std::net::{Ipv4Addr, Ipv6Addr, SocketAddrV4, SocketAddrV6};
+
+use super::{hex, num, unhex, Comp, BAD};
+use crate::shared::ConnectionId;
+use crate::transport_parameters::{
+    Error, PreferredAddress, ReservedTransportParameter, TransportParameters,
+};
+use crate::{ResetToken, Side, VarInt, MAX_CID_SIZE, RESET_TOKEN_SIZE};
+
+pub(super) struct TparamsC;
+impl Comp for TparamsC {
+    fn exec(&mut self, w: &[&str]) -> String {
+        match w {
+            ["write", order, grease, fields @ ..] => {
+                let Some(mut p) = parse_fields(fields) else {
+                    return BAD.into();
+                };
+                if *order != "-" {
+                    let v: Option<Vec<u8>> = order
+                        .split(',')
+                        .map(|x| num(x).and_then(|x| u8::try_from(x).ok()))
+                        .collect();
+                    let Some(v) = v else { return BAD.into() };
+                    let Ok(a) = <[u8; 21]>::try_from(v) else {
+                        return BAD.into();
+                    };
+                    p.write_order = Some(a);
+                }
+                if *grease != "-" {
+                    let Some((id, payload)) = grease.split_once(':') else {
+                        return BAD.into();
+                    };
+                    let (Some(id), Some(payload)) = (num(id), unhex(payload)) else {
+                        return BAD.into();
+                    };
+                    let Ok(id) = VarInt::from_u64(id) else {
+                        return BAD.into();
+                    };
+                    if payload.len() > 16 {
+                        return BAD.into();
+                    }
+                    p.grease_transport_parameter =
+                        Some(ReservedTransportParameter::verif_new(id, &payload));
+                }
+                let mut buf = Vec::new();
+                p.write(&mut buf);
+                format!("ok {}", hex(&buf))
+            }
+            ["read", side, h] => {
+                let side = match *side {
+                    "client" => Side::Client,
+                    "server" => Side::Server,
+                    _ => return BAD.into(),
+                };
+                let Some(b) = unhex(h) else { return BAD.into() };
+                match TransportParameters::read(side, &mut &b[..]) {
+                    Ok(p) => format!("ok {}", render(&p)),
+                    Err(Error::Malformed) => "err malformed".into(),
+                    Err(Error::IllegalValue) => "err illegal".into(),
+                }
+            }
+            _ => BAD.into(),
+        }
+    }
+}
+
+fn var(s: &str) -> Option<VarInt> {
+    VarInt::from_u64(num(s)?).ok()
+}
+
+fn flag(s: &str) -> Option<bool> {
+    match s {
+        "0" => Some(false),
+        "1" => Some(true),
+        _ => None,
+    }
+}
+
+/// `none` -> Some(None); otherwise the value parser must succeed
+fn opt<T>(s: &str, f: impl Fn(&str) -> Option<T>) -> Option<Option<T>> {
+    if s == "none" {
+        Some(None)
+    } else {
+        f(s).map(Some)
+    }
+}
+
+fn cid(s: &str) -> Option<ConnectionId> {
+    let b = unhex(s)?;
+    if b.len() > MAX_CID_SIZE {
+        return None;
+    }
+    Some(ConnectionId::new(&b))
+}
+
+fn token(s: &str) -> Option<ResetToken> {
+    let b = unhex(s)?;
+    let a: [u8; RESET_TOKEN_SIZE] = b.try_into().ok()?;
+    Some(a.into())
+}
+
+fn port(s: &str) -> Option<u16> {
+    u16::try_from(num(s)?).ok()
+}
+
+fn preferred(s: &str) -> Option<PreferredAddress> {
+    let v: Vec<&str> = s.split(',').collect();
+    let [v4, v6, c, t] = v[..] else { return None };
+    let address_v4 = opt(v4, |x| {
+        let (ip, p) = x.split_once('/')?;
+        let ip: [u8; 4] = unhex(ip)?.try_into().ok()?;
+        Some(SocketAddrV4::new(Ipv4Addr::from(ip), port(p)?))
+    })?;
+    let address_v6 = opt(v6, |x| {
+        let (ip, p) = x.split_once('/')?;
+        let ip: [u8; 16] = unhex(ip)?.try_into().ok()?;
+        Some(SocketAddrV6::new(Ipv6Addr::from(ip), port(p)?, 0, 0))
+    })?;
+    Some(PreferredAddress {
+        address_v4,
+        address_v6,
+        connection_id: cid(c)?,
+        stateless_reset_token: token(t)?,
+    })
+}
+
+fn parse_fields(w: &[&str]) -> Option<TransportParameters> {
+    let [a0, a1, a2, a3, a4, a5, a6, a7, a8, a9, a10, dam, mdfs, iscid, gqb, mad, odcid, rscid, srt, pa] =
+        w
+    else {
+        return None;
+    };
+    Some(TransportParameters {
+        max_idle_timeout: var(a0)?,
+        max_udp_payload_size: var(a1)?,
+        initial_max_data: var(a2)?,
+        initial_max_stream_data_bidi_local: var(a3)?,
+        initial_max_stream_data_bidi_remote: var(a4)?,
+        initial_max_stream_data_uni: var(a5)?,
+        initial_max_streams_bidi: var(a6)?,
+        initial_max_streams_uni: var(a7)?,
+        ack_delay_exponent: var(a8)?,
+        max_ack_delay: var(a9)?,
+        active_connection_id_limit: var(a10)?,
+        disable_active_migration: flag(dam)?,
+        max_datagram_frame_size: opt(mdfs, var)?,
+        initial_src_cid: opt(iscid, cid)?,
+        grease_quic_bit: flag(gqb)?,
+        min_ack_delay: opt(mad, var)?,
+        original_dst_cid: opt(odcid, cid)?,
+        retry_src_cid: opt(rscid, cid)?,
+        stateless_reset_token: opt(srt, token)?,
+        preferred_address: opt(pa, preferred)?,
+        grease_transport_parameter: None,
+        write_order: None,
+    })
+}
+
+fn o<T>(x: Option<T>, f: impl Fn(T) -> String) -> String {
+    match x {
+        None => "none".into(),
+        Some(v) => f(v),
+    }
+}
+
+fn render(p: &TransportParameters) -> String {
+    let pa = o(p.preferred_address, |x| {
+        format!(
+            "{},{},{},{}",
+            o(x.address_v4, |a| format!("{}/{}", hex(&a.ip().octets()), a.port())),
+            o(x.address_v6, |a| format!("{}/{}", hex(&a.ip().octets()), a.port())),
+            hex(&x.connection_id),
+            hex(&x.stateless_reset_token)
+        )
+    });
+    format!(
+        "{} {} {} {} {} {} {} {} {} {} {} {} {} {} {} {} {} {} {} {}",
+        p.max_idle_timeout.into_inner(),
+        p.max_udp_payload_size.into_inner(),
+        p.initial_max_data.into_inner(),
+        p.initial_max_stream_data_bidi_local.into_inner(),
+        p.initial_max_stream_data_bidi_remote.into_inner(),
+        p.initial_max_stream_data_uni.into_inner(),
+        p.initial_max_streams_bidi.into_inner(),
+        p.initial_max_streams_uni.into_inner(),
+        p.ack_delay_exponent.into_inner(),
+        p.max_ack_delay.into_inner(),
+        p.active_connection_id_limit.into_inner(),
+        p.disable_active_migration as u8,
+        o(p.max_datagram_frame_size, |x| x.into_inner().to_string()),
+        o(p.initial_src_cid, |x| hex(&x)),
+        p.grease_quic_bit as u8,
+        o(p.min_ack_delay, |x| x.into_inner().to_string()),
+        o(p.original_dst_cid, |x| hex(&x)),
+        o(p.retry_src_cid, |x| hex(&x)),
+        o(p.stateless_reset_token, |x| hex(&x)),
+        pa
+    )
+}
